@@ -576,6 +576,18 @@ func run(c *harness.Ctx, i int) {
 	dsu.Must(err)
 	self, _ := os.Executable()
 	cmd := exec.Command(self)
+	// a fault of one kind at one point: the k-th stat/lstat call of the command fails with EIO (injected by strace).
+	// Whatever the tool concludes from a look at the filesystem that failed, it may fail but not leave the destination.
+	if strings.HasPrefix(mode, "cli") && rng.Intn(3) == 0 {
+		if st, err := exec.LookPath("strace"); err == nil {
+			k := 1 + rng.Intn(14)
+			cmd = exec.Command(st, "-f", "-o", "/dev/null", "-e", "trace=newfstatat", "-e", fmt.Sprintf("inject=newfstatat:error=EIO:when=%d", k), self)
+			tag += fmt.Sprintf("|stat-fault")
+			c.Info("construct=%s mode=%s archive=%d bytes stat-fault-at=%d", tag, mode, len(raw), k)
+			c.LogInfo()
+			c.Count("runs_with_stat_fault", 1)
+		}
+	}
 	cmd.Env = append(os.Environ(), "C18_JAIL="+jail, "C18_MODE="+mode)
 	cmd.Stdin = bytes.NewReader(raw)
 	var stderr bytes.Buffer
